@@ -372,7 +372,11 @@ func (x *Exec) inline(site ssa.Instruction, fn *ssa.Function, bindings []Value, 
 	for i := 0; i < n; i++ {
 		var vs []Value
 		for _, r := range sub.rets {
-			vs = append(vs, r.vals[i])
+			v := r.vals[i]
+			if lv, ok := v.(*Loc); ok && lv.Kind == "heap" && len(lv.Path) == 0 && len(sub.rets) > 1 {
+				v = lv.Ptr
+			}
+			vs = append(vs, v)
 		}
 		same := true
 		for _, v := range vs[1:] {
@@ -477,10 +481,18 @@ func (x *Exec) havocCall(site ssa.Instruction, sig *types.Signature, name string
 	allocBefore := st.alloc
 	st.alloc = u.W.Fresh("alloc", SInt)
 	x.assume(Ge(st.alloc, allocBefore))
-	st.heaps = map[string]Term{}
+	delete(heaps, "*iface*")
 	g := &Gen{kind: "havoc", parent: pre, guard: x.curBlockReach, tag: "c", allocBefore: allocBefore}
+	if !all && len(heaps) == 0 {
+		g = pre.gen // nothing pre-existing can be written: keep the heaps
+	} else {
+		st.heaps = map[string]Term{}
+	}
 	if !all {
 		hs := heaps
+		if g != pre.gen {
+			g.only = hs
+		}
 		g.writable = func(heap string, p Term) Term {
 			if hs[heap] {
 				return TTrue
@@ -581,7 +593,7 @@ func (x *Exec) modularCall(site ssa.Instruction, fn *ssa.Function, fc *FuncContr
 	callName := fmt.Sprintf("call %s", fnDisplayName(fn))
 	// requires
 	for i, rq := range fc.Requires {
-		env := &SpecEnv{u: u, x: x, pkg: pkg, vars: vars, cur: pre, old: pre, reach: x.curBlockReach}
+		env := &SpecEnv{u: u, x: x, pkg: pkg, vars: vars, bound: map[string]SVal{}, cur: pre, old: pre, reach: x.curBlockReach}
 		g, err := env.EvalBool(rq.Expr)
 		if err != nil {
 			u.Errorf("%s: requires %q at call in %s: %v", full, rq.Text, x.fn, err)
@@ -618,6 +630,14 @@ func (x *Exec) modularCall(site ssa.Instruction, fn *ssa.Function, fc *FuncContr
 		if !callee.any {
 			cf := callee
 			g.writable = func(heap string, p Term) Term { return cf.Writable(heap, p) }
+			g.only = map[string]bool{}
+			for _, it := range cf.items {
+				if it.heap == "*" {
+					g.only = nil
+					break
+				}
+				g.only[it.heap] = true
+			}
 		}
 		if fc.Pure && len(callee.items) == 0 && fc.Opts["allocates"] == "" {
 			// pure functions leave the heap alone
@@ -647,7 +667,7 @@ func (x *Exec) modularCall(site ssa.Instruction, fn *ssa.Function, fc *FuncContr
 	}
 	if !x.pure {
 		for _, en := range fc.Ensures {
-			env := &SpecEnv{u: u, x: x, pkg: pkg, vars: postVars, cur: st, old: pre, reach: x.curBlockReach}
+			env := &SpecEnv{u: u, x: x, pkg: pkg, vars: postVars, bound: map[string]SVal{}, cur: st, old: pre, reach: x.curBlockReach}
 			g, err := env.EvalBool(en.Expr)
 			if err != nil {
 				u.Errorf("%s: ensures %q at call in %s: %v", full, en.Text, x.fn, err)
@@ -678,7 +698,7 @@ func (x *Exec) frameFromContract(fc *FuncContract, fn *ssa.Function, vars map[st
 			fr.any = true
 			continue
 		}
-		env := &SpecEnv{u: u, x: x, pkg: pkg, vars: vars, cur: pre, old: pre, reach: TTrue}
+		env := &SpecEnv{u: u, x: x, pkg: pkg, vars: vars, bound: map[string]SVal{}, cur: pre, old: pre, reach: TTrue}
 		its, err := env.frameItem(item)
 		if err != nil {
 			u.Errorf("%s: modifies %q: %v", fc.Key, item, err)
@@ -710,6 +730,8 @@ func init() {
 		"(time.Time).Before": func(x *Exec, site ssa.Instruction, fn *ssa.Function, args []Value, st *State) Value {
 			return Lt(x.timeNs(x.term(args[0])), x.timeNs(x.term(args[1])))
 		},
+		"encoding/json.Unmarshal":       unmarshalLike(1),
+		"gopkg.in/yaml.v3.Unmarshal":    unmarshalLike(1),
 		"(*sync.RWMutex).Lock":    lockOp("W", true),
 		"(*sync.RWMutex).Unlock":  lockOp("W", false),
 		"(*sync.RWMutex).RLock":   lockOp("R", true),
@@ -814,8 +836,32 @@ func sortSlice(x *Exec, site ssa.Instruction, fn *ssa.Function, args []Value, st
 	inb := func(t Term) Term { return And(Ge(t, IntLit(0)), Lt(t, n)) }
 	body := And(inb(piOf(k)), Eq(Select(nh, Elem(sl, k)), Select(h, Elem(sl, piOf(k)))), Eq(pinvOf(piOf(k)), k),
 		inb(pinvOf(k)), Eq(piOf(pinvOf(k)), k))
-	x.assume(Term{fmt.Sprintf("(forall ((k!q Int)) (! (=> %s %s) :pattern ((%s k!q)) :pattern ((%s k!q)) :pattern ((select %s (elem %s k!q)))))", inb(k).S, body.S, pi, pinv, nh.S, sl.S), SBool})
+	x.assume(Term{fmt.Sprintf("(forall ((k!q Int)) (! (=> %s %s) :pattern ((%s k!q)) :pattern ((%s k!q)) :pattern ((select %s %s))))", inb(k).S, body.S, pi, pinv, nh.S, Elem(sl, k).S), SBool})
 	st.SetHeap(hn, nh)
+	// safety of the comparator for indices in range (it runs inside sort.Slice)
+	if !x.pure {
+		i := w.Fresh("less.i", SInt)
+		j := w.Fresh("less.j", SInt)
+		saved := x.curBlockReach
+		guard := w.Fresh("r.less", SBool)
+		x.u.AssumeRaw(Eq(guard, And(saved, Ge(i, IntLit(0)), Lt(i, n), Ge(j, IntLit(0)), Lt(j, n))))
+		x.curBlockReach = guard
+		s3 := st.Clone()
+		func() {
+			defer func() {
+				if r := recover(); r != nil {
+					if _, ok := r.(execAbort); ok {
+						x.note("sort comparator body not executed for safety")
+						return
+					}
+					panic(r)
+				}
+			}()
+			x.static(site, less.Fn, less.Bindings, []Value{i, j}, s3)
+		}()
+		x.curBlockReach = saved
+		x.curInstr = site
+	}
 	// sortedness: for a < b, !less(b, a) evaluated in the post state
 	a := Term{"a!q", SInt}
 	b := Term{"b!q", SInt}
@@ -865,6 +911,7 @@ func (x *Exec) evalClosurePure(c *Closure, args []Value, st *State) (res Term, e
 	}
 	s2 := st.Clone()
 	s2.defers = nil
+	s2.noName = true
 	sub.entry = s2
 	sub.run(s2, TTrue)
 	if len(sub.rets) == 0 {
@@ -875,4 +922,84 @@ func (x *Exec) evalClosurePure(c *Closure, args []Value, st *State) (res Term, e
 		t = Ite(sub.rets[j].reach, x.term(sub.rets[j].vals[0]), t)
 	}
 	return t, nil
+}
+
+// unmarshalLike models decoders writing through an interface-wrapped pointer: the call may
+// write the pointed-to object, the elements of slices held directly in it, and fresh memory.
+func unmarshalLike(argIdx int) intrinsic {
+	return func(x *Exec, site ssa.Instruction, fn *ssa.Function, args []Value, st *State) Value {
+		u := x.u
+		w := u.W
+		c := site.(ssa.CallInstruction).Common()
+		mi, ok := c.Args[argIdx].(*ssa.MakeInterface)
+		if !ok {
+			x.fail("%s: destination is not a direct pointer", fn)
+		}
+		pt, ok := mi.X.Type().Underlying().(*types.Pointer)
+		if !ok {
+			x.fail("%s: destination is not a pointer", fn)
+		}
+		u.usedAssumed[fn.String()+" (writes only *dst, slices held directly in *dst, and fresh memory; result unconstrained)"] = true
+		dv := x.val(mi.X)
+		res := fn.Signature.Results()
+		var vals []Value
+		mkres := func() Value {
+			for i := 0; i < res.Len(); i++ {
+				r := w.Fresh("r."+fn.Name(), w.SortOf(res.At(i).Type()))
+				vals = append(vals, r)
+			}
+			return resultValue(vals)
+		}
+		if l, ok := dv.(*Loc); ok && l.Kind == "cell" {
+			nv := w.Fresh("decoded."+cellName(l.Key), w.SortOf(l.elemType()))
+			// new pointers inside are valid
+			st.alloc = u.W.Fresh("alloc", SInt)
+			x.store(l, nv, st)
+			x.assumeTypeInv(nv, l.elemType(), x.curBlockReach, st)
+			return mkres()
+		}
+		ptr := x.term(dv)
+		T := pt.Elem()
+		type rng struct {
+			heap string
+			sl   Term
+		}
+		var ranges []rng
+		if stt := structOf(T); stt != nil {
+			old := Select(st.Heap(heapName(T), ArraySort(SPtr, w.SortOf(T))), ptr)
+			for i := 0; i < stt.NumFields(); i++ {
+				if sl, ok := stt.Field(i).Type().Underlying().(*types.Slice); ok {
+					ranges = append(ranges, rng{heapName(sl.Elem()), w.FieldGet(T, old, i)})
+				}
+			}
+		}
+		hT := heapName(T)
+		writable := func(heap string, p Term) Term {
+			var alts []Term
+			if heap == hT {
+				alts = append(alts, Eq(p, ptr))
+			}
+			for _, r := range ranges {
+				if r.heap == heap {
+					alts = append(alts, And(Eq(PBase(p), PBase(SlPtr(r.sl))), Ge(PIdx(p), PIdx(SlPtr(r.sl))), Lt(PIdx(p), Add(PIdx(SlPtr(r.sl)), SlCap(r.sl)))))
+				}
+			}
+			return Or(alts...)
+		}
+		if x.frame != nil && !x.frame.any {
+			x.obl("frame[decode into "+hT+"]", "frame", "decoded object within modifies clause", st, Or(Ge(PBase(ptr), x.alloc0), x.frame.Writable(hT, ptr)))
+			for _, r := range ranges {
+				p := w.Fresh("fp", SPtr)
+				x.obl("frame[decode into "+r.heap+"]", "frame", "slice reused by the decoder within modifies clause", st,
+					Implies(writable(r.heap, p), Or(Ge(PBase(p), x.alloc0), x.frame.Writable(r.heap, p))))
+			}
+		}
+		pre := st.Clone()
+		allocBefore := st.alloc
+		st.alloc = w.Fresh("alloc", SInt)
+		x.assume(Ge(st.alloc, allocBefore))
+		st.heaps = map[string]Term{}
+		st.gen = &Gen{kind: "havoc", parent: pre, guard: x.curBlockReach, tag: "dec", allocBefore: allocBefore, writable: writable}
+		return mkres()
+	}
 }
